@@ -12,11 +12,8 @@ import (
 	"verifsim/worlds/core"
 )
 
-func init() {
-	core.Register("C16", func(tier string) core.World { return &c16{tier: tier} })
-}
-
-type c16 struct{ tier string }
+// C16 is the whole-circuit part of the C16 world.
+type C16 struct{ Tier string }
 
 // DrawFaults draws a corruption plan for one trial. lenGE/lenEG are the
 // clean transcript lengths per direction.
@@ -79,9 +76,9 @@ func DrawFaults(t *rt.Tape, lenGE, lenEG int) (ge, eg []simnet.Fault, desc []str
 	return
 }
 
-func (w *c16) Run(t *rt.Tape, trace bool) *core.Result {
-	res := &core.Result{Faults: map[string]int{}}
-	seed := core.BeginRun(t)
+// Run executes one case; seed is the value BeginRun returned.
+func (w *C16) Run(t *rt.Tape, trace bool, seed uint64) *core.Result {
+	res := &core.Result{Faults: map[string]int{}, Reach: map[string]int{}}
 	// transport: not byte-wise (each trial is a complete session), no latency
 	dir := simnet.DirConfig{Cap: []int{65536, 4096, -1, 0}[t.Choose(rt.SGen, 4)], Frag: []int{simnet.FragWhole, simnet.FragRandom}[t.Choose(rt.SGen, 2)]}
 	pipe := simnet.PipeConfig{AB: dir, BA: dir, Record: true}
